@@ -113,3 +113,82 @@ Section Only.
         apply existsb_map_eq. exact (HM Ho e G).
   Qed.
 End Only.
+
+(* ---- exclude(): identity on markers that do not mention the variable, provided no child is contradictory ---- *)
+Section Exclude.
+  Variable vmerge : bool -> atom -> atom -> option marker.
+  Variable vcontains : atom -> str -> bool.
+  Variable perm : list marker -> list marker.
+  Variable good : menv -> Prop.
+  Hypothesis vmerge_sound : forall k a b r, vmerge k a b = Some r ->
+    wf r = true /\ forall e, good e -> meval e r = bop k (atom_eval e a) (atom_eval e b).
+  Hypothesis perm_perm : forall l, Permutation (perm l) l.
+  Let AS := all_sound vmerge vcontains perm good vmerge_sound perm_perm.
+
+  (* every child of a conjunction, at any depth, is satisfied by some environment: MultiMarker.exclude drops a conjunct whose
+     exclusion is <empty>, which would change the meaning of a conjunction with a contradictory child *)
+  Fixpoint alive (m : marker) : Prop :=
+    match m with
+    | MMulti l => (fix go (l : list marker) : Prop := match l with [] => True | x :: t => ((exists e, good e /\ meval e x = true) /\ alive x) /\ go t end) l
+    | MUnion l => l <> [] /\ (fix go (l : list marker) : Prop := match l with [] => True | x :: t => alive x /\ go t end) l
+    | _ => True
+    end.
+
+  Definition excl_ok (m r : marker) : Prop := wf r = true /\ forall e, good e -> meval e r = meval e m.
+
+  Theorem mexclude_identity fuel name : forall m r,
+    mexclude vmerge vcontains perm fuel name m = Ret r -> wf m = true -> mentions name m = false -> alive m -> excl_ok m r.
+  Proof.
+    induction fuel as [|f IH]; intros m r H W NM AL; [discriminate|]. cbn [mexclude] in H.
+    destruct (AS f) as (_ & _ & Hmulti & Hunion & _).
+    assert (Leaf : forall s, is_single s = true -> mentions name s = false -> wf s = true ->
+              (if str_eqb (single_name s) name then Ret MAny else Ret s) = Ret r -> excl_ok s r).
+    { intros s Hs Hm Ws E. assert (En : str_eqb (single_name s) name = false) by (destruct s; try discriminate Hs; exact Hm).
+      rewrite En in E. injection E as <-. split; [exact Ws | reflexivity]. }
+    destruct m as [| |a|n vs|n vs|l|l].
+    - injection H as <-. split; reflexivity.
+    - injection H as <-. split; reflexivity.
+    - exact (Leaf (MAtom a) eq_refl NM W H).
+    - exact (Leaf (MEqU n vs) eq_refl NM W H).
+    - exact (Leaf (MNeM n vs) eq_refl NM W H).
+    - (* conjunction: nothing is dropped *)
+      rewrite wf_multi in W. cbn [mentions] in NM. rewrite mentions_list in NM.
+      match type of H with (bind (mapM ?g l) _ = _) => destruct (mapM g l) as [new| |] eqn:Em; try discriminate H; cbn [bind] in H;
+        assert (Hnew : exists rs, flat_map (fun o => match o with Some x => [x] | None => [] end) new = rs
+                                  /\ forallb wf rs = true /\ forall e, good e -> forallb (meval e) rs = forallb (meval e) l) end.
+      { clear H. revert new Em. induction l as [|x l IHl]; intros new Em; cbn [mapM] in Em.
+        - injection Em as <-. exists []. repeat split.
+        - cbn in W, NM. apply andb_prop in W as [Wx Wl]. apply orb_false_elim in NM as [NMx NMl]. destruct AL as [[[ex [Gx Tx]] ALx] ALl].
+          assert (Es : is_single x && str_eqb (single_name x) name = false).
+          { destruct (is_single x) eqn:Is; [|reflexivity]. destruct x; try discriminate Is; exact NMx. }
+          rewrite Es in Em. destruct (mexclude vmerge vcontains perm f name x) as [rx| |] eqn:Er; try discriminate Em. cbn [bind] in Em.
+          destruct (IH x rx Er Wx NMx ALx) as [Wrx Mrx].
+          assert (Ne : is_empty rx = false).
+          { destruct rx; try reflexivity. specialize (Mrx ex Gx). rewrite Tx in Mrx. discriminate Mrx. }
+          rewrite Ne in Em.
+          match type of Em with (bind (mapM ?g l) _ = _) => destruct (mapM g l) as [new'| |] eqn:Em'; try discriminate Em; cbn [bind] in Em end.
+          injection Em as <-. destruct (IHl Wl NMl ALl new' eq_refl) as (rs & Ers & Wrs & Mrs).
+          exists (rx :: rs). split; [cbn [flat_map app]; rewrite Ers; reflexivity|]. split; [cbn; rewrite Wrx, Wrs; reflexivity|].
+          intros e G. cbn [forallb]. rewrite (Mrx e G), (Mrs e G). reflexivity. }
+      destruct Hnew as (rs & Ers & Wrs & Mrs). rewrite Ers in H.
+      destruct (Hmulti rs r H Wrs) as [Wr Mr]. split; [exact Wr|]. intros e G. rewrite (Mr e G). cbn [semk meval]. exact (Mrs e G).
+    - rewrite wf_union in W. cbn [mentions] in NM. rewrite mentions_list in NM. destruct AL as [Lne AL].
+      match type of H with (bind (mapM ?g l) _ = _) => destruct (mapM g l) as [new| |] eqn:Em; try discriminate H; cbn [bind] in H;
+        assert (Hnew : exists rs, flat_map (fun o => match o with Some x => [x] | None => [] end) new = rs
+                                  /\ forallb wf rs = true /\ length rs = length l /\ forall e, good e -> existsb (meval e) rs = existsb (meval e) l) end.
+      { clear H Lne. revert new Em. induction l as [|x l IHl]; intros new Em; cbn [mapM] in Em.
+        - injection Em as <-. exists []. repeat split.
+        - cbn in W, NM. apply andb_prop in W as [Wx Wl]. apply orb_false_elim in NM as [NMx NMl]. destruct AL as [ALx ALl].
+          assert (Es : is_single x && str_eqb (single_name x) name = false).
+          { destruct (is_single x) eqn:Is; [|reflexivity]. destruct x; try discriminate Is; exact NMx. }
+          rewrite Es in Em. destruct (mexclude vmerge vcontains perm f name x) as [rx| |] eqn:Er; try discriminate Em. cbn [bind] in Em.
+          destruct (IH x rx Er Wx NMx ALx) as [Wrx Mrx].
+          match type of Em with (bind (mapM ?g l) _ = _) => destruct (mapM g l) as [new'| |] eqn:Em'; try discriminate Em; cbn [bind] in Em end.
+          injection Em as <-. destruct (IHl Wl NMl ALl new' eq_refl) as (rs & Ers & Wrs & Lrs & Mrs).
+          exists (rx :: rs). split; [cbn [flat_map app]; rewrite Ers; reflexivity|]. split; [cbn; rewrite Wrx, Wrs; reflexivity|].
+          split; [cbn; rewrite Lrs; reflexivity|]. intros e G. cbn [existsb]. rewrite (Mrx e G), (Mrs e G). reflexivity. }
+      destruct Hnew as (rs & Ers & Wrs & Lrs & Mrs). rewrite Ers in H.
+      destruct rs as [|y ys]; [destruct l; [congruence | discriminate Lrs]|].
+      destruct (Hunion (y :: ys) r H Wrs) as [Wr Mr]. split; [exact Wr|]. intros e G. rewrite (Mr e G). cbn [semk meval]. exact (Mrs e G).
+  Qed.
+End Exclude.
